@@ -56,7 +56,18 @@ done
 CRASHES=$(grep -lE "ERROR: libFuzzer|AddressSanitizer|SUMMARY:" "$ROOT"/logs/fuzz-$ID-*.log 2>/dev/null | wc -l)
 if [ $RC -eq 0 ] && [ "$CRASHES" -gt 0 ] && ! grep -q "FUZZ-VIOLATION" "$ROOT"/logs/fuzz-$ID-*.log; then
   # a crash that is not one of our reports: sanitizer finding, timeout or OOM inside the target
-  if grep -qE "AddressSanitizer|deadly signal" "$ROOT"/logs/fuzz-$ID-*.log && [ "$ID" = "C01" ]; then
+  TO=$(ls -t "$FUZZ"/artifacts/*/timeout-* "$FUZZ"/artifacts/*/oom-* 2>/dev/null | head -1)
+  if [ "$ID" = "C01" ] && [ -n "$TO" ] && [ "$TO" -nt "$STAMP" ]; then
+    # a timeout / out-of-memory artifact: confirm with the stable harness (30 s / 4 GiB guard)
+    R="$ROOT/replays/found/C01-fuzz-hang-$(basename "$TO").json"
+    python3 - "$TO" "$R" <<'PY'
+import json, sys
+data = open(sys.argv[1], "rb").read().decode("utf-8", "replace")
+json.dump({"property": "C01", "rule": "hang", "signature": "hang", "message": "libFuzzer timeout/oom artifact", "found_by": "libFuzzer", "seed": 0, "case": {"kind": "text", "texts": [data], "bytes_hex": "", "n": 0, "gen": "libfuzzer"}}, open(sys.argv[2], "w"))
+PY
+    "$ROOT/harness/target/release/verif" replay "$R" --property C01 >/dev/null 2>&1; RR=$?
+    if [ $RR -eq 3 ] || [ $RR -eq 1 ]; then echo "  rule hang: libFuzzer timeout/oom artifact reproduced by the stable harness"; echo "VIOLATION property=C01 replay=$R"; RC=1; else echo "INCONCLUSIVE: libFuzzer timeout/oom artifact $TO does not reproduce" >&2; RC=2; fi
+  elif grep -qE "AddressSanitizer|deadly signal" "$ROOT"/logs/fuzz-$ID-*.log && [ "$ID" = "C01" ]; then
     ART=$(ls -t "$FUZZ"/artifacts/*/crash-* 2>/dev/null | head -1)
     echo "  sanitizer / signal crash inside the lexer (artifact $ART)"; echo "VIOLATION property=C01 replay=$ART"; RC=1
   else
